@@ -48,6 +48,22 @@ CHECKS = {
             "Held on all generated (reference, bootstrap collection) cases; sampled.",
             "branches with light side >= 2; single-threaded (threads are C11). " + BASE_NOTE,
             "DESIGN.md §5 C10"),
+    "C12": ("reference-model monitor: steps / node state sets from ParsimonyAcr / ParsimonyAsr (library and gotree acr/asr) vs an independent Sankoff dynamic programme on the model; re-rooting invariance; exact optimal set for DOWNPASS; own cost of unambiguous outputs",
+            "Held on all generated (tree, state assignment, algorithm) cases incl. polytomies and engineered ties; sampled.",
+            "<= 40/200 tips, <= 6 states, no random resolution; nucleotide ASR. " + BASE_NOTE,
+            "DESIGN.md §5 C12"),
+    "C13": ("reference-model monitor over conversion chains (Newick<->Nexus(+translate)<->PhyloXML) and an offline checker of the (Id, tree, Err) record sequence of ReadMultiTrees vs ReadTreeReader for four formats; library and gotree reformat",
+            "Held on all generated tree lists and documents; sampled.",
+            "labels legal in all three formats; p-values and comments outside C13. " + BASE_NOTE,
+            "DESIGN.md §5 C13"),
+    "C14": ("reference-model monitor: ToDistanceMatrix / AvgDistanceMatrix / CutEdgesMaxLength (library and gotree matrix / brlen cut) vs model path sums and union-find components; thresholds tied to the tree's own lengths (+-1 ulp)",
+            "Held on all generated trees x metrics x thresholds; sampled.",
+            "absent-support convention of the boot metric estimated from the matrix itself; thresholds <= 0 only without absent lengths. " + BASE_NOTE,
+            "DESIGN.md §5 C14"),
+    "C15": ("reference-model monitor (distances / tip sets before and after local edits) + twin monitor: a random edit history on one twin of Clone/SubTree while the other twin's text and structure walk are re-observed after every step",
+            "Held on all generated graft / merge / insert / single-node / subtree / clone cases and twin histories; sampled.",
+            "path sums to 1e-9 relative; Merge's new root branches unasserted. " + BASE_NOTE,
+            "DESIGN.md §5 C15"),
 }
 
 PENDING = {}
